@@ -261,6 +261,33 @@ def _gen_heartbeat(rng, tier):
                           rng.random() < 0.7)
 
 
+def join_case(free, ta2, db, t, span, nnodes=0, push=None):
+    """The one wired shape (case line 9 ta2 db t): sources A, B and a join J (a active, b passive, default gate) that arms
+    a NodeScheduler timer at start+t in its start hook.  A ticks in the start cycle and at +ta2, B at +db (db < 0: never):
+    a tick of a while b is still invalid notifies J, which is gated out - its timer must stay armed and fire at start+t."""
+    if free:
+        lines = [[1, 1000000, 1000000 + span, 10000000, 0, 1000000, 0], [6, max(1, nnodes)]]
+    else:
+        lines = [[1, 1000, 1000 + span, 7, 1, 1000, max(1, t // 9)], [6, max(1, nnodes)]]
+    lines.append([9, ta2, db, t])
+    for i in range(1, nnodes + 1):
+        lines.append([3, i, -1, 1, 0])
+        lines.append([3, i, -2, 1, t // 2 + i])
+    if push is not None:
+        lines.append([5, push, 1] if free else [4, 13, push, 1, 0, 0])
+    return lines
+
+
+def _gen_join(rng, tier):
+    if rng.random() < 0.25:
+        t = rng.choice([15000, 25000])
+        return join_case(True, rng.choice([0, 4000, 9000]), rng.choice([-1, 7000, t + 3000]), t, t + 15000,
+                         rng.choice([0, 1]), rng.choice([None, 3000]))
+    t = rng.choice([20, 45, 90])
+    return join_case(False, rng.choice([0, 3, t // 3, t - 1]), rng.choice([-1, -1, t // 2, t + 5, 1]), t, t + rng.randint(10, 60),
+                     rng.choice([0, 0, 1]), rng.choice([None, None, 1, 3]))
+
+
 def _gen_lag_end(rng, tier):
     """The wall clock passes end while the graph still has work at exact logical times; steps of 1 and more."""
     v0 = 3000
@@ -376,7 +403,9 @@ def _gen(rng, tier, prop):
         return _gen_stop_in_start(rng, tier)
     if r < 0.90:
         return _gen_heartbeat(rng, tier)
-    if r < 0.91:
+    if r < 0.93:
+        return _gen_join(rng, tier)
+    if r < 0.94:
         return nowake_case(rng.choice([1, 2]))
     return _gen_free(rng, tier)
 
@@ -404,6 +433,10 @@ def enumerate_cases(prop):
                 if v == 'other':
                     out.append(stop_in_start_case(v, n, who, 1))
                     out.append(stop_in_start_case(v, n, who, 0, 1))
+    for t in (20, 45):
+        for ta2 in (0, 3, t - 1):
+            for db in (-1, 1, t // 2, t + 5):
+                out.append(join_case(False, ta2, db, t, t + 30))
     for period in (6, 25):
         for occ in range(1, 9):
             for code in (13, 16, 20):
